@@ -247,11 +247,32 @@ func generateSearchInstruction(l *ast.AstExpression, offset int, state *GenState
 func generateLoop(l *ast.AstLoop, offset int, state *GenState) ([]SearchInstruction, error) {
 	result := []SearchInstruction{}
 
+	// every copy of the body declares the captures of the body again: the ones the previous copy declared are taken
+	// out of the scope before the next copy is generated (the last copy's stay, for the references that follow the loop)
+	copyDeclared := []string{}
+	generateBody := func(at int) ([]SearchInstruction, error) {
+		for _, name := range copyDeclared {
+			delete(state.variables, name)
+		}
+		before := map[string]bool{}
+		for name := range state.variables {
+			before[name] = true
+		}
+		body, gen_error := generateSearchInstruction(&l.Body, at, state)
+		copyDeclared = copyDeclared[:0]
+		for name, target := range state.variables {
+			if !before[name] && target == -1 {
+				copyDeclared = append(copyDeclared, name)
+			}
+		}
+		return body, gen_error
+	}
+
 	current_offset := offset
 	if l.Min > 0 && l.Name == "" {
 		for i := 0; i < l.Min; i++ {
 			// I kinda hate generating this everytime but I also hate the other way where we have to adjust offset values to keep pointers in the body lined up
-			body, gen_error := generateSearchInstruction(&l.Body, current_offset, state)
+			body, gen_error := generateBody(current_offset)
 			if gen_error != nil {
 				return []SearchInstruction{}, gen_error
 			}
@@ -264,7 +285,7 @@ func generateLoop(l *ast.AstLoop, offset int, state *GenState) ([]SearchInstruct
 		return result, nil
 	}
 
-	body, gen_error := generateSearchInstruction(&l.Body, current_offset+1, state)
+	body, gen_error := generateBody(current_offset + 1)
 	if gen_error != nil {
 		return []SearchInstruction{}, gen_error
 	}
